@@ -525,7 +525,8 @@ class CallsMixin:
                 j = z3.Int('j!mm')
                 if 'key' in kwn:
                     keyfn = self.ev1_closure(kwn['key'], s2)
-                    keyof = lambda idx: self.apply_closure_pure(keyfn, [self._view_val(view, idx)], s2, node)
+                    keyof = lambda idx: self.apply_closure_pure(keyfn, [self._view_val(view, idx)],
+                                                                s2.assume(idx >= 0, idx < n), node)
                 else:
                     keyof = lambda idx: self._view_val(view, idx)
                 kj, ks = keyof(j), keyof(kstar)
@@ -739,8 +740,11 @@ class CallsMixin:
             for k, v in kw.items():
                 s, v = self.materialize(s, v)
                 env[k] = v
-            if 'self' in s.env:
-                env.setdefault('self', s.env['self'])
+            # the caller's locals are visible to a call-site contract (unless shadowed by a parameter name):
+            # it may say "the result depends on the caller's `answer` and `entry`"
+            for kk, vv in s.env.items():
+                if kk not in env and kk != 'result' and not isinstance(vv, Closure):
+                    env[kk] = vv      # (`result` always names the callee's return value)
             outs.extend(self.apply_contract(con, env, s, node, names))
         return outs
 
@@ -863,6 +867,10 @@ class CallsMixin:
         for cl in con.ensures:
             ens.append(self.spec_eval(cl, post, env=env, result=res, old=old))
         normal = post.assume(*ens) if ens else post
+        # vacuity guard: assuming a callee's postcondition must not make a live path contradictory
+        if ens and not (self.pure or self.spec) and not (len(con.ensures) == 1 and con.ensures[0].strip() == 'False'):
+            if normal.check() == z3.unsat and st.check() != z3.unsat:
+                raise Unsupported("postcondition of callee %s contradicts the state at the call (contract error)" % label, node)
         if not (len(con.ensures) == 1 and con.ensures[0].strip() == 'False'):
             outs.append((normal.clone(env=st.env), res))
         # 4. exceptional exits
@@ -883,7 +891,7 @@ class CallsMixin:
 
     def add_vc(self, kind, name, st, goal, clause='', node=None, note=''):
         line = getattr(node, 'lineno', None)
-        self.vcs.append(VC(name=name, kind=kind, pc=list(st.pc) + self.round_facts() + self.mul_facts(), goal=goal, path=self.path_counter,
+        self.vcs.append(VC(name=name, kind=kind, pc=list(st.pc) + self.round_facts() + self.mul_facts() + list(self.extra_facts), goal=goal, path=self.path_counter,
                            note=note or (("line %s" % line) if line else ''), clause=clause, state=st))
 
     # ------------------------------------------------------------------ spec builtins (spec mode only)
@@ -912,6 +920,17 @@ class CallsMixin:
                 env[k] = v          # bound variables of enclosing quantifiers, ghost names
         s = st.clone(heap=st.old_heap, env=env)
         return self.ev1(node.args[0], s)
+
+    def spec_pre(self, node, st):
+        """pre(e): value of e at loop entry (inside loop invariants)"""
+        lp = st.meta.get('loop_pre')
+        if lp is None:
+            raise Unsupported("pre() outside a loop invariant", node)
+        env = dict(lp[1])
+        for k, v in st.env.items():
+            if k not in env:
+                env[k] = v
+        return self.ev1(node.args[0], st.clone(heap=lp[0], env=env))
 
     def spec_implies(self, node, st):
         a, b = node.args
@@ -1114,6 +1133,27 @@ class CallsMixin:
         arr = z3.Lambda([k], f(Z.mk_i(first + k * step)))
         self.sum_terms.append((arr, count))
         return Z.mk_r(Z.SUMR(arr, count))
+
+    def spec_prefix_count(self, node, st):
+        """prefix_count(xs, k, 'field') = sum_{i<k} len(xs[i][field]): uninterpreted PC with instances of its recurrence
+        and of the (induction-proved, lemmas.prove_builtin 'PC.mono') monotonicity fact"""
+        xs = self.ev1(node.args[0], st)
+        k = Z.ival(self.ev1(node.args[1], st))
+        field = node.args[2].value
+        a = Z.addr(xs)
+        h = st.heap
+        PC = z3.Function('PC_' + field, Val, I, I)
+        arr = h.elems(a)
+        sub = lambda idx: h.len_of(Z.addr(h.get(Z.addr(z3.Select(arr, idx)), Z.mk_s(field))))
+        if 'q!' not in k.sexpr():
+            i = z3.Int('i!pc')
+            self.extra_facts += [PC(xs, z3.IntVal(0)) == 0,
+                                 z3.Implies(k >= 0, PC(xs, k + 1) == PC(xs, k) + sub(k)),
+                                 z3.Implies(k >= 1, PC(xs, k) == PC(xs, k - 1) + sub(k - 1)),
+                                 z3.Implies(k >= 0, PC(xs, k) >= 0), sub(k) >= 0,
+                                 Z.forall([i], z3.Implies(z3.And(i >= 0, i < k), z3.And(PC(xs, i) >= 0, sub(i) >= 0, PC(xs, i) + sub(i) <= PC(xs, k))),
+                                          patterns=[PC(xs, i)], qid='PC_mono')]
+        return Z.mk_i(PC(xs, k))
 
     def spec_class_is(self, node, st):
         v = self.ev1(node.args[0], st)
